@@ -208,8 +208,10 @@ def generate(repo):
         out = [lean_def('circumradius', '(w diameter gap : K)', 'K', lets, tr.env['rseg'][0], extra=KVARS + ' '),
                lean_def('pitch', '(w diameter gap : K)', 'K', lets, pitch, extra=KVARS + ' ')]
         # samples per segment: int(rseg/dx + 1)
-        assert has(src, 'samples_per_seg = rseg / dx', 'samples_per_seg = int(samples_per_seg + 1)', 'dx = x[0, 1] - x[0, 0]')
-        out.append('def samplesPerSeg (rsegByDx : Rat) : Rat := pyTruncRat (rsegByDx + 1)')
+        assert has(src, 'samples_per_seg = rseg / dx', 'dx = x[0, 1] - x[0, 0]')
+        sps = [s_ for s_ in fn.body if isinstance(s_, ast.Assign) and ast.unparse(s_.targets[0]) == 'samples_per_seg']
+        assert len(sps) == 2 and ast.unparse(sps[0].value) == 'rseg / dx'
+        out.append(f"def samplesPerSeg (rsegByDx : Rat) : Rat := {Tr({'samples_per_seg': 'rsegByDx'}, mode='rat').expr(sps[1].value)}")
         # centre index
         cxs = [s for s in fn.body if isinstance(s, ast.Assign) and ast.unparse(s.targets[0]) in ('cx', 'cy')]
         tx = Tr({'x.shape[1]': 'n', 'y.shape[0]': 'n'})
@@ -231,7 +233,7 @@ def generate(repo):
            lambda: get_def(sg, '_composite_hexagonal_aperture'), aperture,
            (f'def circumradius {KVARS} (w diameter gap : K) : K := {M}.circumradius w diameter\n'
             f'def pitch {KVARS} (w diameter gap : K) : K := {M}.pitch w diameter gap\n'
-            'def samplesPerSeg (rsegByDx : Rat) : Rat := pyTruncRat (rsegByDx + 1)\n'
+            'def samplesPerSeg (rsegByDx : Rat) : Rat := pyTruncRat (rsegByDx + (Model.C18.spsOffset : Rat))\n'
             'def centreIndexX (n : Int) : Int := pyCeilDiv n 2\ndef centreIndexY (n : Int) : Int := pyCeilDiv n 2\n'
             'def idsLo (prev len : Int) : Int := prev + 1\ndef idsHi (prev len : Int) : Int := prev + 1 + len'))
 
